@@ -205,6 +205,33 @@ func (c *Ctx) dischargeBounds(op indexOp) string {
 			return "sort-interface-contract (indices handed to Less/Swap by package sort are in range)"
 		}
 	}
+	// R1b the less function handed to sort.Slice / sort.SliceStable: its indices are indices of
+	// the slice handed over with it
+	if op.kind == "index" && fn.Parent() != nil {
+		if par, ok := op.idx.(*ssa.Parameter); ok && len(fn.Params) == 2 && (par == fn.Params[0] || par == fn.Params[1]) {
+			for _, mc := range c.U.ClosureSites(fn) {
+				if mc.Referrers() == nil {
+					continue
+				}
+				for _, ref := range *mc.Referrers() {
+					call, isCall := ref.(*ssa.Call)
+					if !isCall || call.Call.StaticCallee() == nil || len(call.Call.Args) != 2 || call.Call.Args[1] != ssa.Value(mc) {
+						continue
+					}
+					switch call.Call.StaticCallee().String() {
+					case "sort.Slice", "sort.SliceStable", "sort.SliceIsSorted":
+						arg := call.Call.Args[0]
+						if mi, isMI := arg.(*ssa.MakeInterface); isMI {
+							arg = mi.X
+						}
+						if c.exprDesc(arg) == c.exprDesc(op.x) && !c.writesPathIn(fn, op.x) {
+							return "sort-slice-contract (indices handed to the less function by package sort are indices of the slice it was given)"
+						}
+					}
+				}
+			}
+		}
+	}
 	// R2 loop index over the same collection
 	if op.kind == "index" {
 		for _, l := range ir.Loops(fn) {
@@ -253,6 +280,18 @@ func (c *Ctx) dischargeBounds(op indexOp) string {
 			}
 		}
 	}
+	// R6 tail slice x[i:] under the loop test i < len(x), i counting up from a non-negative start
+	if op.kind == "slice" && op.lo != nil && op.hi == nil && nonNegative(op.lo, 0) {
+		for _, e := range ir.Ifs(fn) {
+			bin, ok := e.Cond.(*ssa.BinOp)
+			if !ok || bin.Op != token.LSS || bin.X != op.lo || !c.isLenMinus(bin.Y, op.x, 0) {
+				continue
+			}
+			if ir.OnlyViaEdge(fn, op.in, ir.Edge{From: e.Block(), Succ: 0}) && !c.writesPathIn(fn, op.x) {
+				return "guarded-tail-slice (0 <= i < len(x) holds where x[i:] is taken)"
+			}
+		}
+	}
 	// R4/R5 lower bound on len(x)
 	lb := c.lenLowerBound(fn, op.x, op.in)
 	switch op.kind {
@@ -284,6 +323,53 @@ func (c *Ctx) dischargeBounds(op indexOp) string {
 		}
 	}
 	return ""
+}
+
+// nonNegative: v is a constant >= 0, a length, a byte count returned by a
+// utf8 decoding function, or a phi / sum of such values.
+func nonNegative(v ssa.Value, depth int) bool {
+	if depth > 6 {
+		return false
+	}
+	if k, ok := ir.ConstInt(v); ok {
+		return k >= 0
+	}
+	switch x := v.(type) {
+	case *ssa.Phi:
+		for _, e := range x.Edges {
+			if e == ssa.Value(x) {
+				continue
+			}
+			if b, ok := e.(*ssa.BinOp); ok && b.Op == token.ADD && (b.X == ssa.Value(x) || b.Y == ssa.Value(x)) {
+				other := b.Y
+				if b.Y == ssa.Value(x) {
+					other = b.X
+				}
+				if !nonNegative(other, depth+1) {
+					return false
+				}
+				continue
+			}
+			if !nonNegative(e, depth+1) {
+				return false
+			}
+		}
+		return true
+	case *ssa.BinOp:
+		return x.Op == token.ADD && nonNegative(x.X, depth+1) && nonNegative(x.Y, depth+1)
+	case *ssa.Call:
+		return ir.BuiltinName(x) == "len" || ir.BuiltinName(x) == "cap"
+	case *ssa.Extract:
+		if call, ok := x.Tuple.(*ssa.Call); ok && x.Index == 1 {
+			if f := call.Call.StaticCallee(); f != nil {
+				switch f.String() {
+				case "unicode/utf8.DecodeRune", "unicode/utf8.DecodeRuneInString", "unicode/utf8.DecodeLastRune", "unicode/utf8.DecodeLastRuneInString":
+					return true // documented: the width in bytes, 0 only for empty input
+				}
+			}
+		}
+	}
+	return false
 }
 
 // isLenMinus: v is len(x) - d.
